@@ -458,14 +458,23 @@ class Interp:
             cm = self.ev(item.context_expr, fr)
             enter = getattr(cm, "kvc_enter", None)
             if enter is None:
-                raise Undecided(f"with on unmodelled context manager {type(cm).__name__}")
+                if type(cm).__name__ == "_GeneratorContextManager" and not isinstance(cm, Sym):
+                    # a @contextmanager generator with concrete arguments: entered and left natively
+                    cm = _NativeCM(cm)
+                    enter = cm.kvc_enter
+                else:
+                    raise Undecided(f"with on unmodelled context manager {type(cm).__name__}")
             v = enter()
             mgrs.append(cm)
             if item.optional_vars is not None:
                 self.assign(item.optional_vars, v, fr)
         try:
             self.block(st.body, fr)
-        finally:
+        except PyRaise:
+            for cm in reversed(mgrs):
+                (cm.kvc_exit_exc if hasattr(cm, "kvc_exit_exc") else cm.kvc_exit)()
+            raise
+        else:
             for cm in reversed(mgrs):
                 cm.kvc_exit()
 
@@ -1093,6 +1102,28 @@ class Interp:
             raise Undecided(f"operator {type(op).__name__} on {a!r}, {b!r}")
         from .intops import int_binop
         return int_binop(self.ctx, op, a, b)
+
+
+class _NativeCM:
+    """a real contextlib generator context manager, driven natively"""
+
+    def __init__(self, cm):
+        self.cm = cm
+
+    def kvc_enter(self):
+        return self.cm.__enter__()
+
+    def kvc_exit(self):
+        self.cm.__exit__(None, None, None)
+
+    def kvc_exit_exc(self):
+        # the body raised: the generator sees an exception at its yield
+        class _BodyRaised(Exception):
+            pass
+        try:
+            self.cm.__exit__(_BodyRaised, _BodyRaised("exception in the with-body"), None)
+        except _BodyRaised:
+            pass
 
 
 class SymMethod:
